@@ -32,7 +32,12 @@ RULE = ('seeded generator: (run) 4..90 receiver / VarzMetric calls over 1..4 met
         'keep threshold 0.1, clock jumps across the 300 s staleness limit, interleaved dumps of VARZ_DATA and '
         'Aggregate under 5 key selectors; 15% of the cases deliberately mix update kinds on one metric (error '
         'branches); (e2e) 1..60 calls through a real MessageDispatcher with a stub sink (success / error / no reply, '
-        'endpoint None / str / object); (pct) CalculatePercentile on sorted lists of 0..40 floats over a grid of p in '
+        'endpoint None / str / empty / object; replies ok / ValueError / scales TimeoutError / gevent.Timeout / not a '
+        'MethodReturnMessage; calls issued while Open() is pending, Open() failing, Close + refused call + re-Open, two '
+        'dispatcher instances with equal or different labels, calls made from inside a completion callback); receiver '
+        'calls executed by other greenlets INSIDE Aggregate\'s yields (first values of new metrics / sources), calls '
+        'with a non-Source, VARZ_DATA.pop of a metric followed by a second life, the same Source object re-used across '
+        'metrics, long-lived metric objects, empty-string fields, capacity 0, boundary amounts (2^8..2^32); (pct) CalculatePercentile on sorted lists of 0..40 floats over a grid of p in '
         '[0,1] plus out-of-range p; (down)/(target) _Downsample and its float size computation. non-trivial = at '
         'least two updates through distinct-but-equal Source objects, or a non-empty percentile input; distinct by '
         'canonical JSON of (case, observation)')
@@ -49,8 +54,8 @@ ASSUMPTIONS = ['python dict semantics (insertion order, lookup by __hash__ then 
                'field values are strings or None (1 == 1.0 == True style cross-type equality of python is outside the model)']
 
 MANIFEST = {
-    'text': ('Theorems C18_sum, C18_gauge, C18_gauge_agg, C18_series_bound, C18_pct_bounds, C18_pct_mono, C18_pct_agg, '
-             'C18_no_error hold for every update sequence, every key selector, every reservoir capacity, every random '
+    'text': ('Theorems C18_sum, C18_sum_concurrent, C18_aggregate_atomic, C18_gauge, C18_gauge_agg, C18_series_bound, '
+             'C18_pct_bounds, C18_pct_mono, C18_pct_agg, C18_no_error hold for every update sequence, every key selector, every reservoir capacity, every random '
              'outcome and every clock of the Gallina transcription of VARZ_DATA / _SampleSet / Aggregate / '
              'CalculatePercentile; the transcription is run in lock-step with the real code (fresh Source object per '
              'update) on ~1.2k (quick) / ~7.4k (thorough) generated histories per run, including end-to-end runs through a '
@@ -66,7 +71,7 @@ _S = {}
 PREFIX = ['method', 'service', 'endpoint', 'client']
 E2E_METRICS = {'scales.MessageDispatcher.dispatch_messages': 100, 'scales.MessageDispatcher.success_messages': 101,
                'scales.MessageDispatcher.exception_messages': 102, 'scales.MessageDispatcher.request_latency': 103}
-EXC_CODE = {'TypeError': 1, 'AttributeError': 2, 'ZeroDivisionError': 3, 'IndexError': 4}
+EXC_CODE = {'TypeError': 1, 'AttributeError': 2, 'ZeroDivisionError': 3, 'IndexError': 4, 'RuntimeError': 6}
 
 
 class _Clock(object):
@@ -88,8 +93,17 @@ class _Random(object):
 
 
 class _NoGevent(object):
-  @staticmethod
-  def sleep(*_a, **_k):
+  """Replacement of `gevent` inside scales.varz: Aggregate's gevent.sleep(0) runs the next scheduled batch of
+  receiver calls (what other greenlets would do during that yield) instead of switching to the hub."""
+  batches = []
+  runner = None
+
+  @classmethod
+  def sleep(cls, *_a, **_k):
+    if cls.batches:
+      b = cls.batches.pop(0)
+      for op in b:
+        cls.runner(op)
     return None
 
 
@@ -149,17 +163,22 @@ def kind_of_type(ty):
 
 
 def _rand_tuple(r):
-  return [r.choice([None, 0, 1]), r.choice([0, 0, 1, None]), r.choice([None, None, 0, 1, 2]), r.choice([None, None, 0])]
+  # 99 stands for the empty string (falsy, but a value different from None)
+  return [r.choice([None, 0, 1, 99]), r.choice([0, 0, 1, None, 99]), r.choice([None, None, 0, 1, 2, 99]), r.choice([None, None, 0])]
 
 
 def _value(r, kind):
   if kind == 'inc':
+    if r.random() < 0.06:
+      return r.choice([255, 256, 65535, 65536, 2 ** 24, 2 ** 31 - 1, 2 ** 31, 2 ** 32, -2 ** 31])
     return r.choice([None, 1, 1, 2, 5, -1, 0, 100, 3])
   if kind == 'set':
     if r.random() < 0.5:
       return r.choice([5, 3, 3, 5, 7])          # re-sets of earlier values are the norm for gauges
     return r.choice([0, 1, 7, -3, r.randrange(-64, 64) / 8.0, r.randrange(0, 1000)])
   k = r.random()
+  if k < 0.03:
+    return r.choice([0, 7, -1.5, -0.0, 65536.0, 2.0 ** 31, 0, 7, -1.5, -0.0, 65536.0, 2.0 ** 31, 1e100, 1e-100])   # ints, negatives, extremes
   if k < 0.5:
     return r.randrange(0, 4096) / 64.0
   if k < 0.8:
@@ -167,6 +186,24 @@ def _value(r, kind):
   if k < 0.9:
     return float(r.randrange(0, 5))
   return r.choice([0.1, 0.37, 1e-3, 123.456, 2.5, 0.0])
+
+
+def _gen_update(r, types, pool, mixed, raw_only=False):
+  m, ty = r.choice(types)
+  kind = kind_of_type(ty if ty is not None else 2)
+  if ty is None:
+    kind = ['inc', 'set', 'sample'][m % 3]
+  if mixed and r.random() < 0.25:
+    kind = r.choice(['inc', 'set', 'sample'])
+  src = list(r.choice(pool))
+  v = _value(r, kind)
+  j = r.choice(JS + [r.random()])
+  if not raw_only and ty in (1, 2, 3, 4, 5, 6) and kind == kind_of_type(ty) and r.random() < 0.5:
+    # 0: class-level metric(source, v); 1: a fresh bound object; 2..4: one of three long-lived bound objects
+    return ['C', ty, m, src, v, j, r.choice([0, 1, 2, 3, 4, 2, 3])]
+  if not raw_only and r.random() < 0.2:
+    return ['L', kind, m, src, v, j, r.choice([0, 1])]      # the very same Source object as before (also for other metrics)
+  return ['L', kind, m, src, v, j]
 
 
 def gen_run(r, big=False, mixed=None):
@@ -180,40 +217,36 @@ def gen_run(r, big=False, mixed=None):
     t = _rand_tuple(r)
     if t not in pool:
       pool.append(t)
-  cap = r.choice([1, 2, 3, 5, 8, 30, 1000])
+  cap = r.choice([1, 2, 3, 5, 8, 30, 1000, 1, 2, 3, 5, 8, 30, 1000, 0])
   if mixed is None:
     mixed = r.random() < 0.15
   nops = r.choice([4, 8, 15, 30, 60, 90])
   ops = []
   now = 0
+
+  def agg(sel):
+    if r.random() < 0.4:
+      # other greenlets record metrics while Aggregate yields: first values of new metrics / sources included
+      return ['A', sel, [[_gen_update(r, types, pool, mixed, raw_only=True) for _ in range(r.choice([0, 1, 1, 2, 3]))]
+                         for _ in range(r.choice([1, 2, 3, 5]))]]
+    return ['A', sel]
   for _ in range(nops):
     k = r.random()
     if k < 0.07:
       now += r.choice([0, 1, 5, 100, 299, 300, 301, 600, -3])
       ops.append(['K', now])
-      continue
-    if k < 0.10:
+    elif k < 0.10:
       ops.append(['D'])
-      continue
-    if k < 0.15:
-      ops.append(['A', r.choice([0, 0, 0, 1, 2, 3, 4])])
-      continue
-    m, ty = r.choice(types)
-    kind = kind_of_type(ty if ty is not None else r.choice([2, 1, 5]))
-    if ty is None:
-      kind = ['inc', 'set', 'sample'][m % 3]
-    if mixed and r.random() < 0.25:
-      kind = r.choice(['inc', 'set', 'sample'])
-    src = list(r.choice(pool))
-    v = _value(r, kind)
-    j = r.choice(JS + [r.random()])
-    if ty in (1, 2, 3, 4, 5, 6) and kind == kind_of_type(ty) and r.random() < 0.5:
-      # 0: class-level metric(source, v); 1: a fresh bound object; 2..4: one of three long-lived bound objects
-      ops.append(['C', ty, m, src, v, j, r.choice([0, 1, 2, 3, 4, 2, 3])])
+    elif k < 0.16:
+      ops.append(agg(r.choice([0, 0, 0, 1, 2, 3, 4])))
+    elif k < 0.175:
+      ops.append(['I', r.choice(['inc', 'set', 'sample']), r.choice(types)[0], r.choice([0, 1, 2]), r.choice([0, 1])])
+    elif k < 0.19:
+      ops.append(['P', r.choice(types)[0]])                # the metric is dropped and starts a second life
     else:
-      ops.append(['L', kind, m, src, v, j])
+      ops.append(_gen_update(r, types, pool, mixed))
   ops.append(['D'])
-  ops.append(['A', 0])
+  ops.append(agg(0))
   ops.append(['A', r.choice([1, 2, 3, 4])])
   case = {'kind': 'run', 'cap': cap, 'types': types, 'ops': ops}
   if r.random() < 0.06:       # VARZ_PERCENTILES is configuration: other lists, also outside [0,1] (IndexError / negative index)
@@ -252,27 +285,44 @@ def gen_objects(r):
     ops.append(['C', ty, 0, src, v, 0.5, r.choice([2, 3, 4, 5, 2, 3, 0, 1])])
     if r.random() < 0.15:
       ops.append(['D'])
+    elif r.random() < 0.08:
+      ops.append(['P', 0])        # the series is dropped; the long-lived objects keep writing
   ops += [['D'], ['A', 0], ['A', 2]]
   return {'kind': 'run', 'cap': 1000, 'types': [[0, ty]], 'ops': ops}
 
 
 def gen_e2e(r):
   n = r.choice([1, 2, 4, 5, 10, 25, 60])
+  two = r.random() < 0.4
   calls = []
   for _ in range(n):
-    method = r.choice([0, 0, 1, 2])
+    method = r.choice([0, 0, 1, 2, 99])
     k = r.random()
-    timeout = r.choice([None, 5])
+    timeout = r.choice([None, 5, 0])
+    opts = {}
+    if two and r.random() < 0.5:
+      opts['d'] = 1                    # a second MessageDispatcher instance in the same process
+    if r.random() < 0.15:
+      opts['chain'] = True             # issued from inside the previous call's completion callback
     if k < 0.1:
-      calls.append([method, None, timeout])
+      calls.append([method, None, timeout, opts])
     else:
-      ep = r.choice([None, 0, 0, 1, 2])
-      calls.append([method, [ep, r.random() < 0.5, r.randrange(0, 2048) / 256.0, r.random() < 0.3, r.choice(JS)], timeout])
+      ep = r.choice([None, 0, 0, 1, 2, 99])
+      kind = r.choice([0, 0, 0, 0, 1, 1, 2, 3, 4])
+      calls.append([method, [ep, r.random() < 0.5, r.randrange(0, 2048) / 256.0, kind, r.choice(JS)], timeout, opts])
+    if r.random() < 0.06:
+      calls.append(['close'])
+      if r.random() < 0.5:
+        calls.append([method, [None, False, 0.5, 0, 0.5], None, {}])       # refused: the dispatcher is closed
+      calls.append(['open', r.choice(['now', 'now', 'later', 'fail'])])
   # open_after = k: the next sink's Open() result completes only after k calls were issued (None: it is complete at once)
   open_after = None if r.random() < 0.4 else r.choice([n, r.randrange(0, n + 1), min(n, 2)])
-  return {'kind': 'e2e', 'cap': r.choice([2, 3, 5, 1000]), 'service': r.choice([0, 1]), 'ops': calls,
-          'open_after': open_after, 'default_timeout': r.choice([None, 10]),
+  case = {'kind': 'e2e', 'cap': r.choice([2, 3, 5, 1000]), 'service': r.choice([0, 1]), 'ops': calls,
+          'open_after': open_after, 'open_fail': r.random() < 0.15, 'default_timeout': r.choice([None, 10]),
           'tail': [['D'], ['A', 0], ['A', r.choice([1, 2, 4])]]}
+  if two:
+    case['service2'] = r.choice([0, 1, 2])         # the same label as the first dispatcher, or another one
+  return case
 
 
 def gen_pct(r):
@@ -365,6 +415,8 @@ def _field(i, x):
   """A freshly built (never interned, never shared) string for field i."""
   if x is None:
     return None
+  if x == 99:
+    return ''.join([])            # the empty string: falsy but not None
   return ''.join([PREFIX[i], str(x)])
 
 
@@ -375,6 +427,8 @@ def _fresh_source(src):
 def _unfield(x):
   if x is None:
     return None
+  if x == '':
+    return 99
   mt = re.search(r'(\d+)$', str(x))
   return int(mt.group(1)) if mt else -7
 
@@ -424,17 +478,23 @@ def _total_obs(t):
   return {'other': repr(t)[:60]}
 
 
-def _aggregate(sel):
+def _aggregate(sel, sched=None):
   V = _S['V']
   raw = _dump()
+  now = _S['clk'].now
+  during = []
+  _NoGevent.batches = [list(b) for b in (sched or [])]
+  _NoGevent.runner = lambda op: during.append(_do_update(op, {}))
   try:
     agg = V.VarzAggregator.Aggregate(V.VarzReceiver.VARZ_DATA, V.VarzReceiver.VARZ_METRICS, SELECTORS[sel])
   except Exception as e:          # the code's own failure modes (TypeError ...) are observations
-    return {'exc': type(e).__name__, 'raw': raw, 'now': _S['clk'].now}
+    return {'exc': type(e).__name__, 'raw': raw, 'now': now, 'during': during}
+  finally:
+    _NoGevent.batches = []
   out = []
   for name, per in agg.items():
     out.append([_mid(name), [[[_unfield(x) for x in key], _total_obs(a.total), a.count] for key, a in per.items()]])
-  return {'agg': out, 'raw': raw, 'now': _S['clk'].now}
+  return {'agg': out, 'raw': raw, 'now': now, 'during': during}
 
 
 def _series_len(m_name):
@@ -472,7 +532,7 @@ def _do_tail_op(op):
   if op[0] == 'D':
     return {'dump': _dump()}
   if op[0] == 'A':
-    return _aggregate(op[1])
+    return _aggregate(op[1], op[2] if len(op) > 2 else None)
   raise ValueError(op)
 
 
@@ -492,63 +552,109 @@ def _bound_object(objects, ty, m, src, slot):
   return objects[key]
 
 
-def _run_ops(case):
+INVALID = {0: None, 1: ('method0', 'service0', None, None), 2: 'service0'}
+KIND_CLASS = {'inc': 4, 'set': 1, 'sample': 5}
+
+
+def _do_update(op, objects):
+  """One receiver / VarzMetric call (ops 'L', 'C', 'I'); returns its step observation."""
   V = _S['V']
   R = V.VarzReceiver
   rnd = _S['rnd']
+  if op[0] == 'I':
+    _tag, kind, m, what, via = op
+    name = _mname(m)
+    bad = INVALID[what]
+    try:
+      if via:
+        _S['classes'][KIND_CLASS[kind]](name, None)(bad, 1)
+      elif kind == 'inc':
+        R.IncrementVarz(bad, name, 1)
+      elif kind == 'set':
+        R.SetVarz(bad, name, 1)
+      else:
+        R.RecordPercentileSample(bad, name, 1.0)
+      o = 'ok'
+    except Exception as e:
+      o = type(e).__name__
+    return {'o': o, 'n': _series_len(name) if name in R.VARZ_DATA else -1, 'rnd': 0}
+  if op[0] == 'L':
+    _tag, kind, m, src, v, j = op[:6]
+    reuse = op[6] if len(op) > 6 else None
+    name = _mname(m)
+    if reuse is None:
+      s = _fresh_source(src)
+    else:                       # the very same Source object again (also across metrics)
+      s = objects.setdefault(('src', tuple(src), reuse), _fresh_source(src))
+    rnd.next = j
+    used0 = rnd.used
+    try:
+      if kind == 'inc':
+        if v is None:
+          R.IncrementVarz(s, name)
+        else:
+          R.IncrementVarz(s, name, v)
+      elif kind == 'set':
+        R.SetVarz(s, name, v)
+      else:
+        R.RecordPercentileSample(s, name, v)
+      o = 'ok'
+    except Exception as e:
+      o = type(e).__name__
+  else:
+    _tag, ty, m, src, v, j, bound = op
+    name = _mname(m)
+    s = _fresh_source(src)
+    rnd.next = j
+    used0 = rnd.used
+    metric = _S['classes'][ty](name, None)
+    try:
+      if bound:
+        b = metric.ForSource(s) if int(bound) == 1 else _bound_object(objects, ty, m, src, int(bound))
+        if v is None:
+          b()
+        else:
+          b(v)
+      else:
+        if v is None:
+          metric(s)
+        else:
+          metric(s, v)
+      o = 'ok'
+    except Exception as e:
+      o = type(e).__name__
+  return {'o': o, 'n': _series_len(name), 'rnd': rnd.used - used0}
+
+
+def _run_ops(case):
+  R = _S['V'].VarzReceiver
   obs = []
   objects = {}
   for op in case['ops']:
     if op[0] == 'K':
       _S['clk'].now = op[1]
       obs.append({'o': 'ok', 'n': 0, 'rnd': False})
-      continue
-    if op[0] in ('D', 'A'):
+    elif op[0] in ('D', 'A'):
       obs.append(_do_tail_op(op))
-      continue
-    if op[0] == 'L':
-      _tag, kind, m, src, v, j = op
-      name = _mname(m)
-      s = _fresh_source(src)
-      rnd.next = j
-      used0 = rnd.used
-      try:
-        if kind == 'inc':
-          if v is None:
-            R.IncrementVarz(s, name)
-          else:
-            R.IncrementVarz(s, name, v)
-        elif kind == 'set':
-          R.SetVarz(s, name, v)
-        else:
-          R.RecordPercentileSample(s, name, v)
-        o = 'ok'
-      except Exception as e:
-        o = type(e).__name__
+    elif op[0] == 'P':
+      R.VARZ_DATA.pop(_mname(op[1]), None)
+      obs.append({'o': 'ok', 'n': 0, 'rnd': 0})
     else:
-      _tag, ty, m, src, v, j, bound = op
-      name = _mname(m)
-      s = _fresh_source(src)
-      rnd.next = j
-      used0 = rnd.used
-      metric = _S['classes'][ty](name, None)
-      try:
-        if bound:
-          b = metric.ForSource(s) if int(bound) == 1 else _bound_object(objects, ty, m, src, int(bound))
-          if v is None:
-            b()
-          else:
-            b(v)
-        else:
-          if v is None:
-            metric(s)
-          else:
-            metric(s, v)
-        o = 'ok'
-      except Exception as e:
-        o = type(e).__name__
-    obs.append({'o': o, 'n': _series_len(name), 'rnd': rnd.used - used0})
+      obs.append(_do_update(op, objects))
   return obs
+
+
+def _e2e_call(entry):
+  """(method, reply, timeout, opts) of a call entry; None for the control entries ['close'] / ['open', mode]."""
+  if entry[0] in ('close', 'open'):
+    return None
+  opts = entry[3] if len(entry) > 3 and entry[3] else {}
+  return entry[0], entry[1], (entry[2] if len(entry) > 2 else None), opts
+
+
+def _reply_outcome(kind):
+  kind = int(kind)
+  return 0 if kind == 0 else (2 if kind == 4 else 1)
 
 
 def _run_e2e(case):
@@ -556,6 +662,7 @@ def _run_e2e(case):
   gevent = _S['gevent']
   ftime = _S['ftime']
   rnd = _S['rnd']
+  AR = _S['AsyncResult']
   R = _S['V'].VarzReceiver
   R.VARZ_DATA.clear()
   R.VARZ_METRICS.clear()
@@ -565,11 +672,14 @@ def _run_e2e(case):
   ftime.t = 1024.0
   MRM = _S['MethodReturnMessage']
   EP = _S['MessageProperties'].Endpoint
-  replies = {}
-  events = []
-  used = {}
-  lat_obs = {}
-  issued_at = {}
+  from scales.message import TimeoutError as ScalesTimeout
+  ops = case['ops']
+  events, used, lat_obs, issued_at, issued, results, ars = [], {}, {}, {}, [], {}, {}
+  chained = set()            # calls made from inside the completion callback of the call before them
+  for i_ in range(1, len(ops)):
+    c_, p_ = _e2e_call(ops[i_]), _e2e_call(ops[i_ - 1])
+    if c_ is not None and c_[3].get('chain') and p_ is not None and p_[1] is not None:
+      chained.add(i_)
 
   class EndpointObj(object):
     def __init__(self, s):
@@ -582,20 +692,24 @@ def _run_e2e(case):
     def __init__(self):
       super(StubSink, self).__init__()
       self.next_sink = None
-      self.open_ar = _S['AsyncResult']()
+      self.gens = []              # one entry per Open(): {'ar': AsyncResult, 'waiting': [call indices], 'fail': bool}
+
+    def new_gen(self, fail=False):
+      self.gens.append({'ar': AR(), 'waiting': [], 'fail': fail})
+      return self.gens[-1]
 
     def Open(self):
-      return self.open_ar
+      return self.gens[-1]['ar']
 
     def Close(self):
       pass
 
     def AsyncProcessRequest(self, sink_stack, msg, stream, headers):
       idx = msg.args[0]
-      reply = replies[idx]
+      reply = _e2e_call(ops[idx])[1]
       if reply is None:
         return
-      ep, as_obj, lat, is_err, j = reply
+      ep, as_obj, lat, kind, j = reply
       if ep is not None:
         e = _field(2, ep)
         msg.properties[EP] = EndpointObj(e) if as_obj else e
@@ -604,73 +718,138 @@ def _run_e2e(case):
       rnd.next = j
       u0 = rnd.used
       events.append(['r', idx])
-      if is_err:
-        sink_stack.AsyncProcessResponseMessage(MRM(error=ValueError('stub failure')))
+      kind = int(kind)
+      if kind == 0:
+        m = MRM(return_value=7)
+      elif kind == 1:
+        m = MRM(error=ValueError('stub failure'))
+      elif kind == 2:
+        m = MRM(error=ScalesTimeout())
+      elif kind == 3:
+        m = MRM(error=gevent.Timeout(1))          # a BaseException subclass as the error
       else:
-        sink_stack.AsyncProcessResponseMessage(MRM(return_value=7))
+        m = object()                               # not a MethodReturnMessage
+      sink_stack.AsyncProcessResponseMessage(m)
       used[idx] = rnd.used - u0
 
     def AsyncProcessResponse(self, sink_stack, context, stream, msg):
       raise NotImplementedError()
 
-  sink = StubSink()
-
-  class Provider(object):
-    def CreateSink(self, properties):
-      return sink
-
-  label = _field(1, case['service'])
-  disp = D.MessageDispatcher(object, Provider(), case.get('default_timeout', 10), {_S['SinkProperties'].Label: label})
-  disp.Open()
-  open_after = case.get('open_after')
-  waiting = []
-
-  def complete_open():
+  def complete(gen):
     # both deferred paths (ContinueWith and on_open) are rawlinks of the Open() result: they run, in the order the
-    # calls were issued, before any of the request greenlets they spawn
-    events.extend(['d', i] for i in waiting)
-    del waiting[:]
-    sink.open_ar.set()
-    for _ in range(3):
+    # calls were issued, before any of the request greenlets they spawn - also when Open() failed
+    if gen['ar'].ready():
+      return
+    events.extend(['d', i] for i in gen['waiting'])
+    del gen['waiting'][:]
+    if gen['fail']:
+      gen['ar'].set_exception(IOError('open failed'))
+    else:
+      gen['ar'].set()
+    for _ in range(4):
       gevent.sleep(0)
 
+  services = [case['service']] + ([case['service2']] if case.get('service2') is not None else [])
+  sinks, disps = [], []
+  for sv in services:
+    sink = StubSink()
+    sink.new_gen(fail=bool(case.get('open_fail')) and not sinks)
+    sinks.append(sink)
+
+    class Provider(object):
+      def CreateSink(self, properties, _sink=sink):
+        return _sink
+    d = D.MessageDispatcher(object, Provider(), case.get('default_timeout', 10), {_S['SinkProperties'].Label: _field(1, sv)})
+    d.Open()
+    disps.append(d)
+  open_after = case.get('open_after')
   if open_after is None:
-    complete_open()
-  ars = []
-  for idx, entry in enumerate(case['ops']):
-    method, reply = entry[0], entry[1]
-    timeout = entry[2] if len(entry) > 2 else None
-    if open_after is not None and idx == open_after and not sink.open_ar.ready():
-      complete_open()
-    replies[idx] = reply
-    issued_at[idx] = ftime.t
-    if sink.open_ar.ready():
-      events.append(['d', idx])
+    complete(sinks[0].gens[-1])
+  for sk in sinks[1:]:
+    complete(sk.gens[-1])
+
+  def issue(idx):
+    method, reply, timeout, opts = _e2e_call(ops[idx])
+    di = opts.get('d', 0) if opts.get('d', 0) < len(disps) else 0
+    gen = sinks[di].gens[-1]
+    if disps[di]._open_ar is None:
+      will_run = False                     # closed: DispatchMethodCall must refuse
     else:
-      waiting.append(idx)
-    if timeout is None:
-      ars.append(disp.DispatchMethodCall(_field(0, method), (idx,), {}))
-    else:
-      ars.append(disp.DispatchMethodCall(_field(0, method), (idx,), {}, timeout=timeout))
+      will_run = True
+      issued_at[idx] = ftime.t
+      if gen['ar'].ready():
+        events.append(['d', idx])
+      else:
+        gen['waiting'].append(idx)
+    try:
+      if timeout is None:
+        ar = disps[di].DispatchMethodCall(_field(0, method), (idx,), {})
+      else:
+        ar = disps[di].DispatchMethodCall(_field(0, method), (idx,), {}, timeout=timeout)
+    except Exception as e:
+      results[idx] = 'raised:' + type(e).__name__
+      if will_run:
+        if events and events[-1] == ['d', idx]:
+          events.pop()
+        elif idx in gen['waiting']:
+          gen['waiting'].remove(idx)
+      return
+    if not will_run:
+      results[idx] = 'accepted-while-closed'
+    issued.append(idx)
+    ars[idx] = ar
+    if idx + 1 in chained:
+      # re-entrancy: the next call is made from inside this call's completion callback
+      ar.rawlink(lambda _ar, _n=idx + 1: issue(_n))
+
+  n_calls = 0
+  for idx, entry in enumerate(ops):
+    if entry[0] == 'close':
+      disps[0].Close()
+      continue
+    if entry[0] == 'open':
+      mode = entry[1] if len(entry) > 1 else 'now'
+      gen = sinks[0].new_gen(fail=(mode == 'fail'))
+      disps[0].Open()
+      if mode != 'later':
+        complete(gen)
+      continue
+    if open_after is not None and n_calls == open_after:
+      complete(sinks[0].gens[0])
+    n_calls += 1
+    if idx in chained:
+      continue
+    issue(idx)
     gevent.sleep(0)
     gevent.sleep(0)
-  if not sink.open_ar.ready():
-    complete_open()
-  results = []
-  for entry, ar in zip(case['ops'], ars):
-    if entry[1] is None:
-      results.append('pending' if not ar.ready() else 'done?')
-    elif not ar.ready():
-      results.append('not-ready')
-    elif ar.successful():
-      results.append('ok')
+    gevent.sleep(0)
+  for sk in sinks:
+    for gen in sk.gens:
+      complete(gen)
+  for _ in range(4):
+    gevent.sleep(0)
+  out_results = []
+  for idx, entry in enumerate(ops):
+    c = _e2e_call(entry)
+    if c is None:
+      out_results.append('control')
+    elif idx in results:
+      out_results.append(results[idx])
+    elif idx not in ars:
+      out_results.append('never-issued')
+    elif c[1] is None:
+      out_results.append('pending' if not ars[idx].ready() else 'done?')
+    elif not ars[idx].ready():
+      out_results.append('not-ready')
+    elif ars[idx].successful():
+      out_results.append('ok')
     else:
-      results.append(type(ar.exception).__name__)
+      out_results.append(type(ars[idx].exception).__name__)
   tail = [_do_tail_op(op) for op in case['tail']]
   types = sorted([mid, R.VARZ_METRICS.get(name)] for name, mid in E2E_METRICS.items())
-  n = len(case['ops'])
-  return {'results': results, 'used': [used.get(i, 0) for i in range(n)], 'lat': [lat_obs.get(i) for i in range(n)],
-          'events': events, 'tail': tail, 'types': types}
+  n = len(ops)
+  return {'results': out_results, 'issued': sorted(issued), 'used': [used.get(i, 0) for i in range(n)],
+          'lat': [lat_obs.get(i) for i in range(n)], 'events': events, 'tail': tail, 'types': types}
 
 
 def run_impl(case):
@@ -788,7 +967,8 @@ def _check_dump(ref, dump, v, where):
       dup = [t for t in set(tuples) if tuples.count(t) > 1][0]
       v.append(('series-split', '%s: metric %s has %d series for the equal source %r' % (where, m, tuples.count(dup), dup)))
     if m not in ref.cells and m >= 0 and m < 100:
-      v.append(('series-foreign', '%s: metric %s was never updated but has series' % (where, m)))
+      if srcs:                      # (a metric without series exists after a rejected update with a non-Source)
+        v.append(('series-foreign', '%s: metric %s was never updated but has series' % (where, m)))
       continue
     if m >= 100 or not ref.clean(m):
       continue
@@ -809,7 +989,9 @@ def _check_dump(ref, dump, v, where):
         if 'num' not in c or c['num'] != w['last']:
           v.append(('gauge-last', '%s: metric %s source %r holds %r, last value set was %r' % (where, m, s, c, w['last'])))
       elif kind == 'sample':
-        if 'res' not in c or not c['res']:
+        if ref.cap <= 0:
+          pass
+        elif 'res' not in c or not c['res']:
           v.append(('reservoir-empty', '%s: metric %s source %r holds %r after %d samples' % (where, m, s, c, len(w['samples']))))
         else:
           pool = list(w['samples'])
@@ -846,20 +1028,66 @@ def _check_pcts_single(total, data, v, where, pcts=None):
       break
 
 
-def _check_agg(ref, sel, o, v, where, pcts=None):
+def _ref_apply(ref, u, du, v, where):
+  """Applies one update op (form 'L' or 'C') with step observation du to the reference."""
+  if u[0] == 'L':
+    kind, m, src, val = u[1], u[2], u[3], u[4]
+  else:
+    kind, m, src, val = kind_of_type(u[1]), u[2], u[3], u[4]
+  was_clean = ref.clean(m)
+  ref.update(m, kind, src, val)
+  if du['o'] != 'ok':
+    if was_clean and ref.clean(m):
+      v.append(('unexpected-exception', '%s: %s on a consistently used metric raised %s' % (where, kind, du['o'])))
+    ref.failed.add(m)
+    return None
+  return m
+
+
+def _check_agg(ref, sel, o, v, where, pcts=None, sched=None):
+  """Aggregate is not atomic: it yields once per registered metric of the snapshot of metric names taken at its start
+  and reads that metric's sources after the yield; sched[i] are the updates other greenlets made inside the i-th yield."""
+  during = list(o.get('during', []))
+  flat = [u for b in (sched or []) for u in b]
   if 'exc' in o:
-    if all(ref.clean(m) for m in ref.cells if ref.types.get(m) is not None) and (pcts is None or all(0.0 <= p <= 1.0 for p in pcts)):
-      v.append(('unexpected-exception', '%s: Aggregate raised %s on a well-typed history' % (where, o['exc'])))
+    ok = all(ref.clean(m) for m in ref.cells if ref.types.get(m) is not None) and (pcts is None or all(0.0 <= p <= 1.0 for p in pcts))
+    for u, du in zip(flat, during):
+      _ref_apply(ref, u, du, v, where)
+    if ok and all(ref.clean(m) for m in ref.cells if ref.types.get(m) is not None):
+      if o['exc'] == 'RuntimeError':
+        v.append(('aggregate-raises-on-concurrent-first-update',
+                  '%s: Aggregate raised RuntimeError because another greenlet recorded a first value while it was yielding' % where))
+      else:
+        v.append(('unexpected-exception', '%s: Aggregate raised %s on a well-typed history' % (where, o['exc'])))
     return
   raw = dict((m, dict((tuple(s), c) for s, c in srcs)) for m, srcs in o['raw'])
   got = dict((m, per) for m, per in o['agg'])
-  for m, cells in ref.cells.items():
+  batches = [list(b) for b in (sched or [])]
+  touched = set(u[2] for u in flat)
+  k = 0
+  for m, _srcs in o['raw']:
     ty = ref.types.get(m)
-    if ty is None or not ref.clean(m) or not cells:
+    if ty is None:
+      continue                          # not in metrics: no yield, not reported
+    if batches:
+      for u in batches.pop(0):
+        if k < len(during):
+          _ref_apply(ref, u, during[k], v, where)
+        k += 1
+    if k > len(during):
+      v.append(('aggregate-yield-missing', '%s: fewer yields than registered metrics' % where))
+      return
+    cells = ref.cells.get(m)
+    if not cells or not ref.clean(m):
       continue
     if m not in got:
       v.append(('agg-metric-lost', '%s: registered metric %s missing from Aggregate' % (where, m)))
       continue
+    _check_agg_metric(ref, sel, m, ty, cells, got, raw, o, v, where, pcts, m in touched)
+
+
+def _check_agg_metric(ref, sel, m, ty, cells, got, raw, o, v, where, pcts, skip_pct):
+  if True:
     per = got[m]
     keys = [tuple(k) for k, _t, _c in per]
     if len(set(keys)) != len(keys):
@@ -887,7 +1115,7 @@ def _check_agg(ref, sel, o, v, where, pcts=None):
         allsum = sum((c['sum'] for c in cells.values()), Fraction(0))
         if tot != allsum:
           v.append(('counter-sum', '%s: metric %s aggregates add up to %s, all increments to %s' % (where, m, tot, allsum)))
-    elif ty in (5, 6):
+    elif ty in (5, 6) and not skip_pct:
       gotk = dict((tuple(k), (t, c)) for k, t, c in per)
       for k, ts in groups.items():
         if k not in gotk:
@@ -918,19 +1146,19 @@ def _monitor_run(case, obs):
       continue
     if op[0] == 'A':
       _check_dump(ref, o['raw'], v, where)
-      _check_agg(ref, op[1], o, v, where, obs.get('pcts'))
+      _check_agg(ref, op[1], o, v, where, obs.get('pcts'), op[2] if len(op) > 2 else None)
       continue
-    if op[0] == 'L':
-      _t, kind, m, src, val, _j = op
-    else:
-      _t, ty, m, src, val, _j, _b = op
-      kind = kind_of_type(ty)
-    was_clean = ref.clean(m)
-    ref.update(m, kind, src, val)
-    if o['o'] != 'ok':
-      if was_clean and ref.clean(m):
-        v.append(('unexpected-exception', '%s: %s on a consistently used metric raised %s' % (where, kind, o['o'])))
-      ref.failed.add(m)
+    if op[0] == 'I':
+      if o['o'] != 'ValueError':
+        v.append(('invalid-source-accepted', '%s: an update with a non-Source was not rejected with ValueError: %s' % (where, o['o'])))
+      continue
+    if op[0] == 'P':
+      ref.cells.pop(op[1], None)
+      ref.kinds.pop(op[1], None)
+      ref.failed.discard(op[1])
+      continue
+    m = _ref_apply(ref, op, o, v, where)
+    if m is None:
       continue
     distinct = len(ref.cells[m])
     if o['n'] > distinct:
@@ -942,20 +1170,36 @@ def _monitor_run(case, obs):
 
 def _monitor_e2e(case, obs):
   v = []
-  svc = case['service']
+  services = [case['service']] + ([case['service2']] if case.get('service2') is not None else [])
   want_disp, want_host = {}, {}
   n_ok = n_err = 0
-  for entry, res in zip(case['ops'], obs['results']):
-    method, reply = entry[0], entry[1]
+  issued = set(obs['issued'])
+  closed = False
+  for idx, (entry, res) in enumerate(zip(case['ops'], obs['results'])):
+    c = _e2e_call(entry)
+    if c is None:
+      closed = entry[0] == 'close'
+      continue
+    method, reply, _timeout, opts = c
+    di = opts.get('d', 0) if opts.get('d', 0) < len(services) else 0
+    if res == 'accepted-while-closed':
+      v.append(('e2e-call-while-closed', 'call %d was accepted by a closed dispatcher' % idx))
+    if idx not in issued:
+      continue
+    svc = services[di]
     want_disp[(method, svc, None, None)] = want_disp.get((method, svc, None, None), 0) + 1
     if reply is None:
       continue
-    ep, _as_obj, lat, is_err, _j = reply
+    ep, _as_obj, lat, kind, _j = reply
+    oc = _reply_outcome(kind)
     h = want_host.setdefault((method, svc, ep, None), {'ok': 0, 'err': 0, 'lat': []})
-    h['err' if is_err else 'ok'] += 1
+    if oc == 0:
+      h['ok'] += 1
+      n_ok += 1
+    elif oc == 1:
+      h['err'] += 1
+      n_err += 1
     h['lat'].append(lat)
-    n_err += 1 if is_err else 0
-    n_ok += 0 if is_err else 1
     if res == 'not-ready':
       v.append(('e2e-no-result', 'a replied call did not complete'))
   for top, o in zip(case['tail'], obs['tail']):
@@ -971,8 +1215,8 @@ def _monitor_e2e(case, obs):
       elif set(tuples) != set(want):
         v.append(('e2e-series', 'metric %s has series %r, calls used %r' % (m, sorted(tuples, key=repr), sorted(want, key=repr))))
     tot = dict((m, sum(c.get('num', 0) for _s, c in d.get(m, []))) for m in (100, 101, 102))
-    if tot[100] != len(case['ops']):
-      v.append(('e2e-counts', 'dispatch_messages adds up to %r after %d calls were issued' % (tot[100], len(case['ops']))))
+    if tot[100] != len(issued):
+      v.append(('e2e-counts', 'dispatch_messages adds up to %r after %d calls were issued' % (tot[100], len(issued))))
     if tot[101] != n_ok or tot[102] != n_err:
       v.append(('e2e-counts', 'success/exception_messages add up to %r/%r after %d/%d such replies' % (tot[101], tot[102], n_ok, n_err)))
     for t, n in want_disp.items():
@@ -1117,6 +1361,18 @@ def _rnd_lit(j, used):
   raise ValueError('random consulted %d times in one update' % used)
 
 
+def _label_lit(op, used):
+  _t, kind, m, src, v, j = op[:6]
+  if kind == 'inc':
+    return '(Inc %s %s %s)' % (z(m), src_lit(src), q(1 if v is None else v))
+  if kind == 'set':
+    return '(SetV %s %s %s)' % (z(m), src_lit(src), q(v))
+  return '(Sample %s %s %s %s)' % (z(m), src_lit(src), q(v), _rnd_lit(j, used))
+
+
+KIND_CODE = {'inc': 0, 'set': 1, 'sample': 2}
+
+
 def to_coq(case, obs):
   k = case['kind']
   if k == 'run':
@@ -1125,20 +1381,30 @@ def to_coq(case, obs):
       if op[0] == 'K':
         ops.append('(OpL (Clock %s))' % z(op[1]))
         exp.append('(ObStep 0 0)')
+      elif op[0] == 'A' and len(op) > 2 and op[2]:
+        during = list(o.get('during', []))
+        n = 0
+        batches = []
+        for b in op[2]:
+          labs = []
+          for u in b:
+            labs.append(_label_lit(u, during[n]['rnd'] if n < len(during) else 0))
+            n += 1
+          batches.append(C.lst(labs))
+        ops.append('(OpAggIL %s %s)' % (z(op[1]), C.lst(batches)))
+        exp.append(_tail_obs_lit(o))
       elif op[0] in ('D', 'A'):
         ops.append(_tail_op_lit(op))
         exp.append(_tail_obs_lit(o))
+      elif op[0] == 'P':
+        ops.append('(OpPop %s)' % z(op[1]))
+        exp.append('(ObStep 0 0)')
+      elif op[0] == 'I':
+        ops.append('(OpInvalid %s %d)' % (z(op[2]), KIND_CODE[op[1]]))
+        exp.append('(ObStep %s %s)' % (z(5 if o['o'] == 'ValueError' else (0 if o['o'] == 'ok' else EXC_CODE.get(o['o'], 99))), z(o['n'])))
       else:
         if op[0] == 'L':
-          _t, kind, m, src, v, j = op
-          rl = _rnd_lit(j, o['rnd'])
-          if kind == 'inc':
-            lab = '(Inc %s %s %s)' % (z(m), src_lit(src), q(1 if v is None else v))
-          elif kind == 'set':
-            lab = '(SetV %s %s %s)' % (z(m), src_lit(src), q(v))
-          else:
-            lab = '(Sample %s %s %s %s)' % (z(m), src_lit(src), q(v), rl)
-          ops.append('(OpL %s)' % lab)
+          ops.append('(OpL %s)' % _label_lit(op, o['rnd']))
         else:
           _t, ty, m, src, v, j, _b = op
           ops.append('(OpCall %s %s %s %s %s)' % (z(ty), z(m), src_lit(src), q(1 if v is None else v),
@@ -1147,17 +1413,19 @@ def to_coq(case, obs):
     return 'CRun %s %s %s' % (cfg_lit(case['cap'], case['types'], obs['pcts']), C.lst(ops), C.lst(exp))
   if k == 'e2e':
     evs = []
+    services = [case['service']] + ([case['service2']] if case.get('service2') is not None else [])
     for what, idx in obs['events']:
-      entry = case['ops'][idx]
+      method, reply, _timeout, opts = _e2e_call(case['ops'][idx])
+      sv = services[opts.get('d', 0) if opts.get('d', 0) < len(services) else 0]
       if what == 'd':
-        evs.append('(EvDispatch %s)' % z(entry[0]))
+        evs.append('(EvDispatch %s %s)' % (z(sv), z(method)))
       else:
-        ep, _as_obj, _lat, is_err, j = entry[1]
-        evs.append('(EvReply %s (oz %s) %s %s %s)' % (z(entry[0]), oz(ep), q(obs['lat'][idx]), C.blit(is_err),
-                                                     _rnd_lit(j, obs['used'][idx])))
-    return 'CE2E %s %s %s %s %s' % (cfg_lit(case['cap'], obs['types'], obs['pcts']), z(case['service']), C.lst(evs),
-                                   C.lst([_tail_op_lit(op) for op in case['tail']]),
-                                   C.lst([_tail_obs_lit(o) for o in obs['tail']]))
+        ep, _as_obj, _lat, kind, j = reply
+        evs.append('(EvReply %s %s (oz %s) %s %d %s)' % (z(sv), z(method), oz(ep), q(obs['lat'][idx]), _reply_outcome(kind),
+                                                        _rnd_lit(j, obs['used'][idx])))
+    return 'CE2E %s %s %s %s' % (cfg_lit(case['cap'], obs['types'], obs['pcts']), C.lst(evs),
+                                C.lst([_tail_op_lit(op) for op in case['tail']]),
+                                C.lst([_tail_obs_lit(o) for o in obs['tail']]))
   if k == 'pct':
     return 'CPct %s %s %s' % (qlist(case['values']), qlist(case['ps']),
                               C.lst(['None' if x is None else '(Some %s)' % q(x) for x in obs['out']]))
@@ -1206,6 +1474,11 @@ def stats(cases, obs):
         'random_keep': 0, 'random_drop': 0, 'reservoir_evictions': 0, 'dumps': 0, 'aggregates_ok': 0, 'aggregate_errors': {},
         'agg_total_kinds': {'num': 0, 'pcts': 0, 'work': 0}, 'stale_reservoirs_at_aggregate': 0,
         'multi_source_percentile_keys': 0, 'via_varzmetric_object': 0, 'via_receiver': 0, 'max_equal_source_updates': 0,
+        'aggregates_with_concurrent_batches': 0, 'concurrent_updates_run_inside_yields': 0,
+        'concurrent_first_value_of_a_metric': 0, 'concurrent_first_value_of_a_source': 0, 'invalid_source_calls': 0,
+        'metric_pops': 0, 'updates_reusing_the_same_source_object': 0, 'e2e_calls_chained_from_completion_callback': 0,
+        'e2e_calls_on_second_dispatcher': 0, 'e2e_close_reopen': 0, 'e2e_calls_refused_while_closed': 0,
+        'e2e_open_failed_cases': 0, 'e2e_reply_kinds': {},
         'e2e_calls': 0, 'e2e_calls_issued_before_open_completed': 0, 'updates_via_long_lived_objects': 0,
         'gauge_resets_of_an_earlier_value_after_a_change': 0, 'pct_index_errors': 0, 'pct_exact_index': 0, 'pct_interpolated': 0, 'downsample_branches':
         {'target0': 0, 'all': 0, 'skip': 0}, 'mixed_kind_histories': 0}
@@ -1221,6 +1494,8 @@ def stats(cases, obs):
         if op[0] in ('L', 'C'):
           st['updates'] += 1
           st['via_varzmetric_object' if op[0] == 'C' else 'via_receiver'] += 1
+          if op[0] == 'L' and len(op) > 6 and op[6] is not None:
+            st['updates_reusing_the_same_source_object'] += 1
           if op[0] == 'C' and int(op[6]) >= 2:
             st['updates_via_long_lived_objects'] += 1
             if kind_of_type(op[1]) == 'set':
@@ -1243,7 +1518,21 @@ def stats(cases, obs):
             st['random_keep' if op[5] < 0.1 else 'random_drop'] += 1
         elif op[0] == 'D':
           st['dumps'] += 1
+        elif op[0] == 'I':
+          st['invalid_source_calls'] += 1
+        elif op[0] == 'P':
+          st['metric_pops'] += 1
         elif op[0] == 'A':
+          if len(op) > 2 and op[2]:
+            st['aggregates_with_concurrent_batches'] += 1
+            st['concurrent_updates_run_inside_yields'] += len(s.get('during', []))
+            have = dict((m_, set(tuple(x[0]) for x in srcs_)) for m_, srcs_ in s['raw'])
+            for u in [u for b in op[2] for u in b][:len(s.get('during', []))]:
+              if u[2] not in have:
+                st['concurrent_first_value_of_a_metric'] += 1
+              elif tuple(u[3]) not in have[u[2]]:
+                st['concurrent_first_value_of_a_source'] += 1
+              have.setdefault(u[2], set()).add(tuple(u[3]))
           if 'exc' in s:
             st['aggregate_errors'][s['exc']] = st['aggregate_errors'].get(s['exc'], 0) + 1
           else:
@@ -1264,7 +1553,19 @@ def stats(cases, obs):
       if any(len(x) > 1 for x in kinds.values()):
         st['mixed_kind_histories'] += 1
     elif k == 'e2e':
-      st['e2e_calls'] += len(c['ops'])
+      st['e2e_calls'] += len([e for e in c['ops'] if _e2e_call(e) is not None])
+      st['e2e_open_failed_cases'] += 1 if c.get('open_fail') else 0
+      for e, res in zip(c['ops'], o['results']):
+        cc = _e2e_call(e)
+        if cc is None:
+          st['e2e_close_reopen'] += 1 if e[0] == 'open' else 0
+          continue
+        st['e2e_calls_chained_from_completion_callback'] += 1 if cc[3].get('chain') else 0
+        st['e2e_calls_on_second_dispatcher'] += 1 if cc[3].get('d') else 0
+        st['e2e_calls_refused_while_closed'] += 1 if str(res).startswith('raised') else 0
+        if cc[1] is not None:
+          kk = str(int(cc[1][3]))
+          st['e2e_reply_kinds'][kk] = st['e2e_reply_kinds'].get(kk, 0) + 1
       seen_d = set()
       for what, idx in o.get('events', []):
         if what == 'd':
